@@ -112,6 +112,8 @@ class Module:
                     self.imports[a.asname or a.name.split('.')[0]] = (a.name, None)
             elif isinstance(n, ast.Assign) and len(n.targets) == 1 and isinstance(n.targets[0], ast.Name):
                 self.globals[n.targets[0].id] = n.value
+            elif isinstance(n, ast.AnnAssign) and isinstance(n.target, ast.Name) and n.value is not None:
+                self.globals[n.target.id] = n.value
 
     @classmethod
     def load(cls, relpath):
